@@ -2166,6 +2166,7 @@ pub fn set_index(
                                 return Err(e);
                             }
                         };
+                        let old = owned[i];
                         owned[i..i + 1].copy_from_slice(v.as_bytes());
                         match String::from_utf8(owned) {
                             Ok(r) => {
@@ -2173,9 +2174,12 @@ pub fn set_index(
                                 Ok(())
                             }
                             Err(err) => {
-                                *mut_s = String::from_utf8_lossy(err.as_bytes()).into_owned();
+                                // undo the write: a failed assignment leaves the string as it was
+                                let mut owned = err.into_bytes();
+                                owned[i] = old;
+                                *mut_s = String::from_utf8(owned).unwrap();
                                 Err(NErr::value_error(format!(
-                                    "assigning to string result not utf-8 (string corrupted)"
+                                    "assigning to string result not utf-8"
                                 )))
                             }
                         }
